@@ -11,6 +11,7 @@
    Trusted primitives (tools/src2v3_linear.py lists them): BufReader is transparent; io::copy over a Take is
    Src3l.io_copy_take; ArchiveFileBlock::from is Blocks.parse_block; a writer of `export` accepts all it is
    handed (sinks = the log of (name, piece)). *)
+From MLA Require Import Limit.
 From MLA Require Import Base Stream Blocks Builders Writer Reader LinearProofs SrcTie3Reader.
 From MLA Require Import RoundTripBlocks RoundTripFooter RoundTripReader RoundTripWriter RoundTripRun
   RoundTripGlue RoundTrip LinearRoundTripDefs LinearRoundTripPure LinearRoundTrip.
@@ -33,6 +34,7 @@ Definition res_of {A} (x : A) (r : res unit) : res A :=
   match r with Ok _ => Ok x | Err e => Err e | Crash c => Crash c end.
 
 Section Tie.
+  Context {LIM : Limit}.
   Variable S : Stream.
   Variables FNMAX T_START T_CONTENT T_EOA T_EOF : N.
 
@@ -150,7 +152,7 @@ End Tie.
    archive written by ANY sequence of accepted writer calls, over any cursor-like stream, for any export
    list: the translated linear_extract returns Ok, `export` keeps its keys, each chosen file's writer has
    received exactly the bytes written for it, nothing else received anything *)
-Theorem C12_linear_delivers_written_src :
+Theorem C12_linear_delivers_written_src {LIM : Limit} :
   forall FNMAX TS TC TA TE (H : bytes -> bytes) (order : footer -> footer),
   tags_distinct TS TC TA TE -> (forall x, len (H x) = 32) ->
   forall ops sf rs,
@@ -177,6 +179,7 @@ Qed.
 
 (* ---------- StreamWriter::{new, write, flush} ---------- *)
 Section SW.
+  Context {LIM : Limit}.
   Variable AW : Type.
   Variable append : AW -> N -> N -> bytes -> AW * res unit.
   Variable aflush : AW -> AW * res unit.
